@@ -142,7 +142,7 @@ func scenario(cfgName string, toks []string) {
 	if joiners > 1 {
 		cfg.Joiners = joiners
 	}
-	bud := Budget{MaxTerm: 9, Proposals: 9, Drops: 99, Dups: 9, Crashes: 9, Heartbeats: 9, Compacts: 9, Expires: 9, Delays: 9, ConfChanges: 9, Lags: 9, Applies: 99}
+	bud := Budget{MaxTerm: 9, Proposals: 9, Drops: 99, Dups: 9, Crashes: 9, Heartbeats: 9, Compacts: 9, Expires: 9, Delays: 9, ConfChanges: 9, Lags: 9, Applies: 99, Plags: 9, Persists: 99}
 	var done []Event
 	c := newCluster(newSim(false), &cfg, &bud, true)
 	step := func(e Event) bool {
